@@ -88,14 +88,15 @@ def tick : WM Unit := fun w =>
 
 def fresh : WM Nat := fun w => ({ w with created := w.created + 1 }, .ok w.created)
 
-/-- run the destructor of element `id` (of a type with/without drop glue) -/
-def dropElem (hasDrop : Bool) (id : Nat) : WM Unit :=
-  if hasDrop then do
-    -- the destructor has started (and is logged) even when it then panics
-    WM.modify fun w => { w with dropLog := id :: w.dropLog, ev := .drop id :: w.ev }
-    tick
-  else
-    WM.modify fun w => { w with dropLog := id :: w.dropLog }
+/-- the destructor of `id` has started: logged (ghost only for types without drop glue) -/
+def logDrop (hasDrop : Bool) (id : Nat) (w : World) : World :=
+  { w with dropLog := id :: w.dropLog, ev := if hasDrop then .drop id :: w.ev else w.ev }
+
+/-- run the destructor of element `id` (of a type with/without drop glue); it counts as started
+(and is logged) even when it then panics -/
+def dropElem (hasDrop : Bool) (id : Nat) : WM Unit := do
+  WM.modify (logDrop hasDrop id)
+  if hasDrop then tick else pure ()
 
 /-- run `T::clone` on element `src`; the clone is a fresh identity -/
 def cloneElem (src : Nat) : WM Nat := do
